@@ -29,7 +29,7 @@ theorem done_stable {ga : Nat → Int} {s s' : S} {t : Tid} {a : Act} (hi : Inv 
   all_goals exact ⟨hd, rfl⟩
 
 /-- an item that is EAI_INPROGRESS stays so or becomes final -/
-theorem inprog_next {ga : Nat → Int} {s s' : S} {t : Tid} {a : Act} (hi : Inv ga s)
+theorem inprog_next {ga : Nat → Int} {s s' : S} {t : Tid} {a : Act}
     (hs : Step Cfg.fixed ga s t a s') (b j : Nat) (hd : s.status b j = .inProg) :
     s'.status b j = .inProg ∨ s'.status b j = .done := by
   cases hs
